@@ -583,6 +583,9 @@ def table_names(ctx):
 # ===================================================================== C01
 def c01(ctx):
     strs = list(dict.fromkeys(gen.email_strings(ctx.tier, ctx.rng)))
+    # bracketed domains of every shape (tags with every byte value, trailers, families): the composition oracle decides them too
+    strs += [b"a@" + d for d in gen.literal_domains("quick", ctx.rng)[:: (3 if ctx.tier == "quick" else 1)] if 0 not in d]
+    strs = list(dict.fromkeys(strs))
     strs = [s for s in strs if 0 not in s]
     for m in MODES:
         for t in (0, 1):
@@ -1982,7 +1985,8 @@ def c20(ctx):
     rng = ctx.rng
     errs = errors_table()
     corpus = [s for s in diag_corpus(ctx) if 0 not in s and b"\n" not in s]
-    shapes = [b"", b" ", b"  ", b"\t", b"#comment", b"# a@b.com", b" #notcomment@b.com", b"a@b.com", b" a@b.com", b"a@b.com ", b"a@b.com\t", b" a@b.com \t", b"a@b.com  ",
+    shapes = [b'"john"smith@gmail.com', b'john."q"x@gmail.com', b'"a"b@b.com', b'"a".b@b.com', b'a."b"@b.com', b'"a" b@b.com', b'"a"\xc3\xa9@b.com', b'"a\\"b"@b.com',
+              b"", b" ", b"  ", b"\t", b"#comment", b"# a@b.com", b" #notcomment@b.com", b"a@b.com", b" a@b.com", b"a@b.com ", b"a@b.com\t", b" a@b.com \t", b"a@b.com  ",
               b"\xff", b"a\xff@b.com", b"\xc3", b"\xe2\x82", b"a@b.com\r", b"a\rb@c.com", b"\r", b"a@\x01.com", b"\x7f@b.com", "ж@почта.рф".encode(), "пример@почта.рф ".encode(),
               "😀@b.com".encode(), "a😀b@x.org".encode(), "\U00010000@b.com".encode(), "x\U000fffff@b.com".encode(), "\U00100000y@b.com".encode(),
               "\U0010ffff@b.com".encode(), "\uffff\U00010000\u0800\u07ff\u0080@b.com".encode(), "ab\U0001f600".encode(), "\U0001f600".encode() * 3,
